@@ -195,8 +195,26 @@ def impl(case):
     return outs[0] if all(o == outs[0] for o in outs) else " || ".join(outs)
 
 
+def worker_impl(d):
+    """executed in a worker interpreter (props/_twoproc.py): the outcome line of one case"""
+    return impl(Case("", d, ()))
+
+
 # ---------------------------------------------------------------- oracle (model-free)
 def oracle(case):
+    msgs = _oracle(case)
+    if not msgs:
+        here = impl(case)
+        if here.startswith("rej:"):
+            # no / several roots, an ambiguous non-leaf name, ...: refused whatever BIGTREE_CONF_ASSERTIONS says
+            from props import _twoproc
+            off = _twoproc.refusal_differs_off("props.C13:worker_impl", case.data, here, case.line, every=4)
+            if off is not None:
+                msgs.append(f"with BIGTREE_CONF_ASSERTIONS switched off the input is no longer refused as {here}: {off[:120]}")
+    return msgs
+
+
+def _oracle(case):
     d = case.data
     runs, unchanged = _runs(d)
     msgs = []
